@@ -451,7 +451,8 @@ class FunctionNode(ASTNode):
 
         # if a special handler is needed
         handler = getattr(self, f'func_{func}', None)
-        if handler is not None:
+        if callable(handler):
+            # (=MAP(...) must not pick up the func_map table)
             return handler()
         else:
             # map to the correct name
@@ -938,7 +939,9 @@ class ExcelFormula:
             # load the needed names
             not_found = load_functions(names, name_space, modules)
 
-            # exec the code to define the lambda
+            # exec the code to define the lambda, a function that pycel does
+            # not know must not resolve to a python builtin (type, hex, map)
+            name_space['__builtins__'] = {'str': str}
             exec(compiled, name_space, name_space)
             excel_formula.compiled_lambda = lambdas[0]
             del name_space['lambdas']
